@@ -30,7 +30,8 @@ PID = "C17"
 LEVEL = "exploration"
 BUDGET = {"quick": 60000, "thorough": 1200000}
 RULE = (
-    "each run is one of: (tokens, 70%) a workload of another operation class (iterator tools, aggregations, "
+    "each run is one of: (concurrent use, 10%) 2..3 tasks issue anext/aclose on one tool iterator at the same time - "
+    "errors are the library's right, invented suspensions are not; (tokens, 60%) a workload of another operation class (iterator tools, aggregations, "
     "borrow, scoped_iter, tee, lru_cache, cached_property, contextmanager, ExitStack, decorators, groupby, "
     "asynctools) executed with interrupt density 1 (two absorbed throws per suspension) or 1/2, judged only by the "
     "loop protocol: object reaching the loop is a live token of that task, reply object and interrupt object reach "
@@ -45,7 +46,7 @@ ASSUMPTIONS = [
     "token protocol: user awaitables yield a Token object and expect its private reply object back (identity)",
     "violations of the re-used workloads' own clauses are not attributed to C17",
 ]
-PROBES = ("tokens_mode", "sync_mode", "interrupt_absorbed", "tripwire_subprocess_ran")
+PROBES = ("concurrent_use_mode", "library_refused_concurrent_use", "tokens_mode", "sync_mode", "interrupt_absorbed", "tripwire_subprocess_ran")
 CLASSES = ("c01", "c02", "c05", "c07", "c09", "c10", "c11", "c12", "c14", "c15", "c16", "c19", "c08", "c13", "c20",
            "c03", "c04", "c06", "c18")
 _mods = {}
@@ -284,10 +285,74 @@ def tokens_part(st, ctx, out):
     return out
 
 
+# --------------------------------------------------------------------------- concurrent (mis)use part
+def misuse_part(st, ctx, out):
+    """
+    Several tasks operate on ONE library iterator at the same time (anext while another anext or an aclose is in
+    flight).  The library may refuse such use with an error - but whatever it does, it must not invent suspensions:
+    everything that reaches the loop must still be a token of a user awaitable.
+    """
+    from ..loop import PAUSE
+    from ..tooldiff import Run
+    from .common import new_sim, run_sim, finish_outcome
+
+    ch = st.scenario
+    cfg = draw_cfg(ch, async_only=True, all_suspend=True, odd_items=False)
+    g = Gen(ch, cfg, "")
+    g.all_suspend = True
+    name = TOOL_NAMES[ch.draw(len(TOOL_NAMES))]
+    spec = TOOLS[name].gen(g)
+    if name == "batched" and spec.p["n"] < 1:
+        spec.p["n"] = 1
+    sim = new_sim(st, interrupts=False)
+    common.set_interrupts(sim, (0, 2, 1)[ch.draw(3)])
+    world = World(sim, own_log=True)
+    srcs, fns = build_async(spec, world)
+    it = TOOLS[name].a(lib(), spec, _objs(srcs), _objs(fns))
+    plans = [[ch.weighted([3, 1]) for _ in range(ch.between(1, 4))] for _ in range(ch.between(2, 3))]
+    outcomes = []
+
+    async def user(ops):
+        for op in ops:
+            try:
+                if op == 0:
+                    await it.__anext__()
+                    outcomes.append("item")
+                else:
+                    await it.aclose()
+                    outcomes.append("closed")
+            except StopAsyncIteration:
+                outcomes.append("stop")
+            except Exception as err:  # "already running" and the like are the library's right
+                outcomes.append(type(err).__name__)
+            await sim.suspend(PAUSE, None, "user")
+
+    for ops in plans:
+        sim.spawn(user(ops))
+    run_sim(sim)
+    if sim.breaches:
+        out.violate("C17." + sim.breaches[0][0], ("concurrent_use", name),
+                    {"tool": spec.describe(), "plans": plans, "breaches": [repr(b) for b in sim.breaches[:3]],
+                     "outcomes": outcomes})
+    out.probes["concurrent_use_mode"] = 1
+    if any(o not in ("item", "stop", "closed") for o in outcomes):
+        out.probes["library_refused_concurrent_use"] = 1
+    out.nontrivial = sim.n_tokens > 0
+    out.shape = ("misuse", spec.shape_key(), tuple(tuple(p) for p in plans))
+    if ctx.want_sample:
+        out.sample = {"mode": "concurrent use of one iterator", "tool": spec.describe(), "plans": plans, "outcomes": outcomes}
+    if ctx.want_log:
+        out.log = [outcomes, sim.trace]
+    return finish_outcome(out, st, sim, ctx)
+
+
 def execute(st, ctx):
     out = Outcome()
-    if st.scenario.chance(3, 10):
+    sel = st.scenario.draw(10)
+    if sel < 3:
         return sync_part(st, ctx, out)
+    if sel == 3:
+        return misuse_part(st, ctx, out)
     return tokens_part(st, ctx, out)
 
 
